@@ -137,6 +137,7 @@ func (q *workQueue) close() {
 
 func explore(ld *Loaded, cfg RunConfig) (*RunResult, error) {
 	t0 := time.Now()
+	debug.SetGCPercent(800)
 	res := &RunResult{PerHarness: map[string]*HarnessStats{}, Records: map[string][]PathRecord{}, Unsupp: map[string]int{},
 		Cover: map[*ssa.BasicBlock]bool{}, Called: map[*ssa.Function]bool{}}
 	for _, h := range cfg.Harnesses {
